@@ -38,7 +38,7 @@ class Metabolite(ModelFeature):
 
     def __eq__(self, other):
         if isinstance(other, Metabolite):
-            return set(self.modes) == set(other.modes)
+            return set(self.eval.modes) == set(other.eval.modes)
         else:
             return False
 
